@@ -1,0 +1,36 @@
+package tmi
+
+import (
+	"bytes"
+
+	"github.com/gordian-engine/gordian/tm/tmconsensus"
+)
+
+// ValidatorSetMatchesHashes reports whether the validators and public keys listed in vs
+// are the ones its PubKeyHash and VotePowerHash were computed from.
+//
+// A block hash covers only those two hashes of a header's validator sets.
+// The lists travel next to them, and the mirror takes the validators of the next height from the lists,
+// so a header received from the network must not be accepted unless the lists agree with the hashes.
+func ValidatorSetMatchesHashes(vs tmconsensus.ValidatorSet, hs tmconsensus.HashScheme) bool {
+	if len(vs.PubKeys) != len(vs.Validators) {
+		return false
+	}
+	for i, v := range vs.Validators {
+		if v.PubKey == nil || !v.PubKey.Equal(vs.PubKeys[i]) {
+			return false
+		}
+	}
+
+	pubKeyHash, err := hs.PubKeys(vs.PubKeys)
+	if err != nil || !bytes.Equal(pubKeyHash, vs.PubKeyHash) {
+		return false
+	}
+
+	votePowerHash, err := hs.VotePowers(tmconsensus.ValidatorsToVotePowers(vs.Validators))
+	if err != nil || !bytes.Equal(votePowerHash, vs.VotePowerHash) {
+		return false
+	}
+
+	return true
+}
